@@ -532,6 +532,20 @@ class DiskShuffle(SimpleShuffle):
             d = {i: g.get_group(i) for i in g.groups if i in _filter}
             p.append(d, fsync=True)
 
+    @staticmethod
+    def _collect(p, part, meta, barrier_token):
+        res = collect(p, part, meta, barrier_token)
+        # partd joins the pieces of an output partition with ``pd.concat``, which
+        # turns categoricals whose categories differ between the input
+        # partitions into objects; restore what the meta declares
+        for i, (want, got) in enumerate(zip(meta.dtypes, res.dtypes)):
+            if isinstance(want, CategoricalDtype) and not isinstance(
+                got, CategoricalDtype
+            ):
+                dtype = CategoricalDtype(ordered=want.ordered)
+                res.isetitem(i, res.iloc[:, i].astype(dtype))
+        return res
+
     def _layer(self):
         from dask.dataframe.dispatch import partd_encode_dispatch
 
@@ -557,7 +571,7 @@ class DiskShuffle(SimpleShuffle):
 
         # Collect groups
         dsk4 = {
-            (self._name, j): (collect, p, k, df._meta, barrier_token)
+            (self._name, j): (self._collect, p, k, df._meta, barrier_token)
             for j, k in enumerate(self._partitions)
         }
 
